@@ -61,6 +61,6 @@ func init() {
 		Assumptions: []string{"errors.As is modelled by its documented rule for non-wrapping errors", archNote},
 		LevelText:   "Bounded symbolic model checking of context/context.go with the real decimal operations behind it: (a) after a normal operation the receiver has the context's precision and mode and equals the plain operation on a fresh receiver with those attributes; (b) the latch automaton as an inductive step from every context state: latched => receiver untouched; ErrNaN => recorded, no panic, later operations no-ops, Err() returns it once and re-arms; any other panic propagates and is not latched.",
 		LevelNote:   trusted,
-		Timeout:     map[string]time.Duration{"quick": 150 * time.Second, "thorough": 120 * time.Second},
+		Timeout:     map[string]time.Duration{"quick": 300 * time.Second, "thorough": 120 * time.Second},
 	})
 }
